@@ -489,12 +489,36 @@ theorem be16_decode (n : Nat) (h : n < 65536) :
 theorem sum16_lt (bs : Bytes) : sum16 bs < 65536 := by
   unfold sum16; exact Nat.mod_lt _ (by decide)
 
+/-- the repair of D8e is present in the tree the model was generated from -/
+theorem fixD8e_on : Gen.fixD8eChecksumOverStoredOctets = 1 := by decide
+
+theorem parseCk_eq_stored {Mat} (A : KeyAlg Mat) (ver : Byte) (bs : Bytes) :
+    parseCk A ver bs = parseCkStored A ver bs := by
+  simp [parseCk, fixD8e_on]
+
+/-- any stored encoding `mat` of the material that the parser reads completely, followed by the
+16-bit sum of *those octets*, is accepted (the encoding need not be the one the library writes) -/
+theorem parseCkStored_any_encoding {Mat} (A : KeyAlg Mat) (ver : Byte) (mat : Bytes) (m : Mat)
+    (hp : A.parse mat = some (m, [])) :
+    parseCkStored A ver (mat ++ (if isV3V4 ver then be16 (sum16 mat) else [])) = some m := by
+  cases hv : isV3V4 ver
+  · simp [parseCkStored, hv, hp]
+  · obtain ⟨a, b, hab, hsum⟩ := be16_decode _ (sum16_lt mat)
+    have h2 : Gen.plainChecksumLen = 2 := by decide
+    simp only [parseCkStored, hv, if_true, hab, h2]
+    have hl : ¬ (mat ++ [a, b]).length < 2 := by simp
+    have ht : (mat ++ [a, b]).length - 2 = mat.length := by simp
+    simp only [hl, if_false, ht, List.take_left', List.drop_left', hp, hsum, if_true]
+
 theorem parseCk_ser {Mat} (A : KeyAlg Mat) (hA : ∀ m rest, A.parse (A.ser m ++ rest) = some (m, rest))
     (ver : Byte) (m : Mat) :
     parseCk A ver (A.ser m ++ be16 (sum16 (A.ser m))) = some m := by
-  obtain ⟨a, b, hab, hsum⟩ := be16_decode _ (sum16_lt (A.ser m))
-  simp only [parseCk, hA, hab]
-  cases isV3V4 ver <;> simp [hsum]
+  rw [parseCk_eq_stored]
+  cases hv : isV3V4 ver
+  · simp [parseCkStored, hv, hA]
+  · have h0 : A.parse (A.ser m) = some (m, []) := by simpa using hA m []
+    have := parseCkStored_any_encoding A ver (A.ser m) m h0
+    simpa [hv] using this
 
 theorem lock_eq_protect {Mat} (P : Prims) (A : KeyAlg Mat) (ver tag : Byte) (pub : Bytes) (p : Params)
     (pw : Bytes) (m : Mat) (blob : Bytes) (hl : lock P A ver tag pub p pw m = some blob) :
@@ -854,15 +878,38 @@ theorem cfb254_digest_tamper_rejected {Mat} (P : Prims) (L : Laws P) (C : CfbLaw
 
 /-! ## the 16-bit sum (255 and the legacy cipher octets), stated honestly -/
 
+/-- `parseCkStored` on a v3/v4 key, when it returns something: the input is some stored encoding of
+the material, read completely by the parser, followed by exactly two octets that equal the 16-bit
+sum of *those stored octets* -/
+theorem parseCkStored_sound {Mat} (A : KeyAlg Mat) (ver : Byte) (pt : Bytes) (m : Mat)
+    (hv : isV3V4 ver = true) (h : parseCkStored A ver pt = some m) :
+    ∃ mat a b, pt = mat ++ [a, b] ∧ A.parse mat = some (m, []) ∧
+      a.toNat * 256 + b.toNat = sum16 mat := by
+  have h2 : Gen.plainChecksumLen = 2 := by decide
+  simp only [parseCkStored, hv, if_true, h2] at h
+  split at h; · simp at h
+  rename_i hlen
+  split at h
+  · rename_i m0 a b hparse hdrop
+    split at h
+    · rename_i hsum
+      injection h with h; subst h
+      refine ⟨pt.take (pt.length - 2), a, b, ?_, hparse, hsum⟩
+      have := List.take_append_drop (pt.length - 2) pt
+      rw [hdrop] at this
+      exact this.symm
+    · simp at h
+  · simp at h
+
 /-- what `unlock` computes on usage-255 parameters for a v3/v4 key when it returns something: the
-decrypted bytes parse to the material followed by exactly two octets that equal the 16-bit sum
-of the *re-serialised* material.  Nothing stronger than the 16-bit sum protects the material. -/
+decrypted bytes are a stored encoding of the material followed by exactly two octets that equal the
+16-bit sum of the stored octets.  Nothing stronger than the 16-bit sum protects the material. -/
 theorem unlock_sum16_sound {Mat} (P : Prims) (A : KeyAlg Mat) (ver tag : Byte) (pub : Bytes)
     (sym : Byte) (s2k : S2k) (iv data pw : Bytes) (m : Mat) (hv : isV3V4 ver = true)
     (h : unlock P A ver tag pub (.malleableCfb sym s2k iv) data pw = some m) :
-    ∃ key pt a b, P.derive s2k pw (Gen.c08SymKeySize sym.toNat) = some key ∧
-      P.cfbDec sym key iv data = some pt ∧ A.parse pt = some (m, [a, b]) ∧
-      a.toNat * 256 + b.toNat = sum16 (A.ser m) := by
+    ∃ key mat a b, P.derive s2k pw (Gen.c08SymKeySize sym.toNat) = some key ∧
+      P.cfbDec sym key iv data = some (mat ++ [a, b]) ∧ A.parse mat = some (m, []) ∧
+      a.toNat * 256 + b.toNat = sum16 mat := by
   unfold unlock at h
   split at h; · simp at h
   simp only at h
@@ -871,40 +918,69 @@ theorem unlock_sum16_sound {Mat} (P : Prims) (A : KeyAlg Mat) (ver tag : Byte) (
   split at h; · simp at h
   rename_i pt hpt
   split at h; · simp at h
-  simp only [parseCk, hv, if_true] at h
-  split at h; · simp at h
-  rename_i m0 rest hparse
-  split at h
-  · rename_i a b
-    split at h
-    · rename_i hsum
-      injection h with h; subst h
-      exact ⟨key, pt, a, b, hkey, hpt, hparse, hsum⟩
-    · simp at h
-  · simp at h
+  rw [parseCk_eq_stored] at h
+  obtain ⟨mat, a, b, hpt', hparse, hsum⟩ := parseCkStored_sound A ver pt m hv h
+  exact ⟨key, mat, a, b, hkey, hpt' ▸ hpt, hparse, hsum⟩
 
 theorem unlock_legacy_sound {Mat} (P : Prims) (A : KeyAlg Mat) (ver tag : Byte) (pub : Bytes)
     (sym : Byte) (iv data pw : Bytes) (m : Mat) (hv : isV3V4 ver = true)
     (h : unlock P A ver tag pub (.legacyCfb sym iv) data pw = some m) :
-    ∃ pt a b, P.cfbDec sym (P.md5 pw) iv data = some pt ∧ A.parse pt = some (m, [a, b]) ∧
-      a.toNat * 256 + b.toNat = sum16 (A.ser m) := by
+    ∃ mat a b, P.cfbDec sym (P.md5 pw) iv data = some (mat ++ [a, b]) ∧ A.parse mat = some (m, []) ∧
+      a.toNat * 256 + b.toNat = sum16 mat := by
   unfold unlock at h
   split at h; · simp at h
   simp only at h
   split at h; · simp at h
   rename_i pt hpt
   split at h; · simp at h
-  simp only [parseCk, hv, if_true] at h
-  split at h; · simp at h
-  rename_i m0 rest hparse
-  split at h
-  · rename_i a b
-    split at h
-    · rename_i hsum
-      injection h with h; subst h
-      exact ⟨pt, a, b, hpt, hparse, hsum⟩
-    · simp at h
-  · simp at h
+  rw [parseCk_eq_stored] at h
+  obtain ⟨mat, a, b, hpt', hparse, hsum⟩ := parseCkStored_sound A ver pt m hv h
+  exact ⟨mat, a, b, hpt' ▸ hpt, hparse, hsum⟩
+
+/-- **whichever encoding the material was stored in** (D8e): under usage 255 a blob whose decryption
+is any encoding `mat` that the parser reads completely, followed by the sum of those octets, is opened
+by the right password -/
+theorem unlock_sum16_any_encoding {Mat} (P : Prims) (A : KeyAlg Mat) (ver tag : Byte) (pub : Bytes)
+    (sym : Byte) (s2k : S2k) (iv data pw key mat : Bytes) (m : Mat) (hv : isV3V4 ver = true)
+    (hw : unlockWilling ver (.malleableCfb sym s2k iv) = true)
+    (hk : P.derive s2k pw (Gen.c08SymKeySize sym.toNat) = some key)
+    (hd : P.cfbDec sym key iv data = some (mat ++ be16 (sum16 mat)))
+    (hp : A.parse mat = some (m, [])) :
+    unlock P A ver tag pub (.malleableCfb sym s2k iv) data pw = some m := by
+  have h2 : ¬ (mat ++ be16 (sum16 mat)).length < Gen.unlockMalleableMin := by
+    have : Gen.unlockMalleableMin = 2 := by decide
+    simp [be16, beBytes]; omega
+  have := parseCkStored_any_encoding A ver mat m hp
+  simp only [hv, if_true] at this
+  simp only [unlock, hw, Bool.not_true, Bool.false_eq_true, if_false, hk, hd, h2, parseCk_eq_stored, this]
+
+theorem unlock_legacy_any_encoding {Mat} (P : Prims) (A : KeyAlg Mat) (ver tag : Byte) (pub : Bytes)
+    (sym : Byte) (iv data pw mat : Bytes) (m : Mat) (hv : isV3V4 ver = true)
+    (hw : unlockWilling ver (.legacyCfb sym iv) = true)
+    (hd : P.cfbDec sym (P.md5 pw) iv data = some (mat ++ be16 (sum16 mat)))
+    (hp : A.parse mat = some (m, [])) :
+    unlock P A ver tag pub (.legacyCfb sym iv) data pw = some m := by
+  have h2 : ¬ (mat ++ be16 (sum16 mat)).length < Gen.unlockLegacyMin := by
+    have : Gen.unlockLegacyMin = 2 := by decide
+    simp [be16, beBytes]; omega
+  have := parseCkStored_any_encoding A ver mat m hp
+  simp only [hv, if_true] at this
+  simp only [unlock, hw, Bool.not_true, Bool.false_eq_true, if_false, hd, h2, parseCk_eq_stored, this]
+
+/-- toy material for the regression witness: one octet `x` behind a declared bit count, which may
+overstate (`8`, as other implementations write it) or be exact; written back with the exact count -/
+def toyAlgBitCount : KeyAlg Byte :=
+  { ser := fun x => [(Nat.log2 x.toNat + 1).toUInt8, x]
+    parse := fun bs => match bs with
+      | n :: x :: r => if Nat.log2 x.toNat + 1 ≤ n.toNat ∧ n.toNat ≤ 8 then some (x, r) else none
+      | _ => none }
+
+/-- regression witness for D8e: the pre-repair check (sum over the re-serialised material) refuses an
+intact key whose material carries a rounded-up bit count; the repaired check accepts it -/
+theorem reencoded_checksum_refuses_noncanonical_witness :
+    parseCkReencoded toyAlgBitCount 4 ([8, 7] ++ be16 (sum16 [8, 7])) = none ∧
+    parseCkStored toyAlgBitCount 4 ([8, 7] ++ be16 (sum16 [8, 7])) = some 7 ∧
+    parseCkReencoded toyAlgBitCount 4 ([3, 7] ++ be16 (sum16 [3, 7])) = some 7 := by decide
 
 /-! ## policy: key-version and hash restrictions -/
 
@@ -915,7 +991,7 @@ theorem parseCk_plain {Mat} (A : KeyAlg Mat) (hA : ∀ m rest, A.parse (A.ser m 
   · simp only [Bool.false_eq_true, if_false, List.append_nil]
     have := hA m []
     simp only [List.append_nil] at this
-    simp [parseCk, this, hv]
+    simp [parseCk_eq_stored, parseCkStored, this, hv]
   · simp only [if_true]
     exact parseCk_ser A hA ver m
 
